@@ -22,6 +22,7 @@ type ModelCtx struct {
 	cause    error
 	deadline bool
 	dlCause  error
+	timeout  time.Duration // as requested from WithTimeout (0 for WithDeadline)
 }
 
 func (c *ModelCtx) cancel(err, cause error) {
@@ -108,6 +109,7 @@ func CtxWithTimeoutCause(parent context.Context, d time.Duration, cause error) (
 	c := newModelCtx(parent)
 	c.deadline = true
 	c.dlCause = cause
+	c.timeout = d
 	deadlineCtxs = append(deadlineCtxs, c)
 	return c, func() { c.cancel(context.Canceled, nil) }
 }
@@ -135,4 +137,20 @@ func CtxCause(ctx context.Context) error {
 // NewDeadlineCtx gives harnesses a context that may expire at any poll.
 func NewDeadlineCtx() (context.Context, context.CancelFunc) {
 	return CtxWithTimeoutCause(context.Background(), 0, nil)
+}
+
+// CtxBudget reports the smallest timeout requested (context.WithTimeout / WithTimeoutCause) along the ancestor chain
+// of ctx, i.e. the time budget under which the holder of ctx runs; ok is false if no ancestor carries a timeout.
+func CtxBudget(ctx context.Context) (d time.Duration, ok bool) {
+	for ctx != nil {
+		c, isModel := ctx.(*ModelCtx)
+		if !isModel {
+			break
+		}
+		if c.deadline && c.timeout > 0 && (!ok || c.timeout < d) {
+			d, ok = c.timeout, true
+		}
+		ctx = c.parent
+	}
+	return
 }
